@@ -20,4 +20,22 @@ PROPS = {
                         "edge makers build the cursor as OffsetToCursor(offset), as all call sites in api/graphql/resolvers do"],
         "gen_facts": ["Gen.Conn: each gen_*.go body equals connection_template.go up to the genny type names"],
     },
+    "C13": {
+        "required_theorems": ["resolve_spec", "resolve_found_iff", "resolve_multiple_iff", "resolve_notFound_iff", "resolve_full_id",
+                              "combine_split", "combine_split_gen", "combine_length", "combine_total", "mask_counts",
+                              "resolveComment_unique", "resolveComment_never_other", "resolveComment_notFound",
+                              "candidate_of_combined", "gen_masks_are_model"],
+        "slices": ["C13"],
+        "rule": "ids: random 64-hex primary/secondary pairs x every prefix length 0..64 plus non-ASCII prefixes; resolve: real bug/"
+                "comment/identity populations in a RepoCache (mock repo), every id x prefix lengths {0,1,2,3,4,7,16,63,64} incl. near "
+                "misses, every combined comment id x 14 prefix lengths; distinct = distinct id pairs / populations; all are non-trivial "
+                "(populations of >=8 bugs share 1-2 character prefixes by birthday collision: see distribution resolve:multiple)",
+        "trusted_base": [KERNEL, TIE,
+                         "model: GitBugModel.Ids (combine, separate, resolve, resolveComment) for entity/id_interleaved.go, SubCache.resolveMatcher, RepoCacheBug.ResolveComment",
+                         "Gen.Interleave: the case guards of CombineIds/SeparateIds evaluated for i in 0..63 by the extractor",
+                         "ids are modelled as character lists; SHA-256 collision-freeness is not assumed by any theorem (hypotheses are on the population)"],
+        "assumptions": ["ids are ASCII (hexadecimal), as Id.Validate enforces; for other prefixes SeparateIds' byte-offset behaviour is modelled and compared, but no theorem speaks about it",
+                        "engineered shared prefixes longer than what birthday collisions give are covered by the theorems (all populations) and by the id-level slice, not by cache populations"],
+        "gen_facts": ["Gen.Interleave.combineMask/separateMask = model mask on 0..63; idLength = 64"],
+    },
 }
